@@ -74,7 +74,7 @@ class Face(ElementBase):
     def add_edge(self, corner: int, edge_data: Union[EdgeData, None]) -> None:
         """Replaces an existing edge between corner and (corner+1);
         use None to delete an edge (replace with a straight line)"""
-        if corner > 3:
+        if not (0 <= corner <= 3):
             raise FaceCreationError("Provide a corner index between 0 and 3", f"Given corner index: {corner}")
 
         if edge_data is None:
